@@ -79,6 +79,12 @@ class Run:
                         self.assumptions.append("%s depends on: %s" % (n, " ".join(a.split())))
                 if ob2.get("unprinted"):
                     self.broken_obligations.append(dict(what="theorems without Print Assumptions", names=ob2["unprinted"]))
+        if self.tier == "thorough" and self.pid in vc.CODE_PROPS and not self.broken_obligations:
+            okc, summary = vc.coqchk_code(self.pid)
+            self.cov["coqchk_code"] = summary
+            if not okc:
+                self.broken_obligations.append(dict(what="coqchk does not accept %s or reports axioms" % vc.CODE_PROPS[self.pid],
+                                                    output=summary))
         if self.tier == "thorough" and ob["ok"]:
             okc, summary = vc.coqchk_property(self.pid)
             self.cov["coqchk"] = summary
